@@ -23,7 +23,9 @@ RULE = ("case 'read' = (format out of dbc, sym, kcd, json, dbf, arxml; an abstra
         "feature the format carries; comments run over one to five lines where the format allows it (dbc, json, kcd, arxml), and a DBC file with CR LF "
         "line ends has them inside such texts too; the free texts (comments of frames, signals, ECUs and SYM multiplexer groups, units, value "
         "texts) also hold the punctuation of the statement grammars - double quotes, //, =, switches, brackets, keywords, markup characters - wherever "
-        "the format's definition lets a text hold it (GRAMMAR_TEXTS and the tables below it). case 'ecus' = the described ECUs are present; with 'facts' = what the file says about each ECU "
+        "the format's definition lets a text hold it (GRAMMAR_TEXTS and the tables below it); an ARXML file of level 1 states the computation method and the data "
+        "constraint of a signal at any of the places the schema offers (NETWORK-REPRESENTATION-PROPS of the I-SIGNAL, PHYSICAL-PROPS of the SYSTEM-SIGNAL as in the "
+        "shipped Vector samples, both), references the unit from the COMPU-METHOD, the properties of the I-SIGNAL or both, with DATA-TYPE-POLICY LEGACY, OVERRIDE or left out, I-SIGNAL-TYPE and DYNAMIC-LENGTH present or left out. case 'ecus' = the described ECUs are present; with 'facts' = what the file says about each ECU "
         "(comment, also over several lines; attribute values for dbc and dbf) is among what was read; for sym, which knows no ECUs, the same case carries what "
         "the file says about each multiplexer group (the comment behind its Mux= line, the empty text where there is none). case 'defs' with 'facts' (dbc, dbf) = the attribute "
         "values on network level and the named value tables (dbc) are read as described, and no others. case 'defs' (dbc, dbf) = every described attribute definition is "
@@ -55,10 +57,11 @@ def run(net, fmt, lexseed, level, enc=None):
     if key in _cache:
         return _cache[key]
     R = module(fmt)
-    res = {"exc": None, "db": None, "errors": 0, "text": None}
+    res = {"exc": None, "db": None, "errors": 0, "text": None, "notes": {}}
     try:
         lex = R.Lex(random.Random(lexseed), level)
         text = R.render(net, lex)
+        res["notes"] = getattr(lex, "notes", None) or {}       # which of several permitted places the writer chose (arxml)
         data = text.encode(enc or "iso-8859-1") if isinstance(text, str) else text
         res["text"] = data
         out = io.StringIO()
@@ -357,7 +360,8 @@ def observe(case):
         return {"exc": None, "got": got_defs(db)}
     fr = next((x for x in db.frames if x.arbitration_id.id == c["fid"] and bool(x.arbitration_id.extended) == c["ext"]), None)
     return {"exc": None, "errors": r["errors"], "got": N.got_frame(fr) if fr is not None else None,
-            "native": c["fmt"] == "json" and uses_native_float(r["text"]), "eol": line_ends(r["text"]) if c["fmt"] in ("dbc", "sym", "dbf") else None}
+            "native": c["fmt"] == "json" and uses_native_float(r["text"]), "eol": line_ends(r["text"]) if c["fmt"] in ("dbc", "sym", "dbf") else None,
+            "places": sorted({n for s in c["desc"]["signals"] for n in r["notes"].get(s["name"], [])})}
 
 
 def project(impl):
@@ -445,6 +449,8 @@ def features(case, impl):
                 yield c["fmt"] + ":mux"
             if s["values"]:
                 yield c["fmt"] + ":values"
+        for n in impl.get("places") or []:
+            yield "%s:%s" % (c["fmt"], n)
         if impl.get("exc"):
             yield "exception:" + c["fmt"]
 
